@@ -1,7 +1,7 @@
 (* models of the collection / string / conversion / maths builtins (repaired code, offset = 1 or 0) *)
 From Flocq Require Import Core BinarySingleNaN.
 Require Import ZArith NArith Bool List Arith. Import ListNotations.
-Require Import F64 Dec Types Generic Lang GenUnicode.
+Require Import F64 Dec Types Generic Lang GenUnicode CaseModel.
 Inductive bres := BOk (v:value) | BErr (e:nerr) | BUnmodelled.
 Section B.
 Variable offset : nat.            (* STRING_OFFSET: 1 by default, 0 with zero_based_strings *)
@@ -40,11 +40,7 @@ Definition is_white (c:N) : bool := ((9 <=? c) && (c <=? 13) || (c =? 32) || (c 
 Fixpoint drop_white (s:list N) := match s with c :: r => if is_white c then drop_white r else s | [] => [] end.
 Definition trim_l s := drop_white s. Definition trim_r s := rev (drop_white (rev s)). Definition trim_b s := trim_r (trim_l s).
 Definition all_ascii (s:list N) := forallb (fun c => (c <? 128)%N) s.
-(* str::to_lowercase / to_uppercase: the per-character mappings of the regenerated tables (Gen/GenUnicode.v), one character can become several; the one context rule of
-   str::to_lowercase - capital sigma at the end of a word becomes the final sigma - is not modelled: texts containing U+03A3 are left to the oracles *)
-Definition has_sigma (s:list N) : bool := existsb (fun c => (c =? 931)%N) s.
-Definition lower_str (s:list N) : list N := flat_map u_lower s.
-Definition upper_str (s:list N) : list N := flat_map u_upper s.
+(* letter case: CaseModel.v (per-character tables and the final-sigma rule) *)
 Definition upper_ascii (c:N) : N := if (97 <=? c)%N && (c <=? 122)%N then (c - 32)%N else c.
 Fixpoint parse_csv (line:list N) (sep:N) (field:list N) (inq:bool) : list (list N) :=
   match line with [] => [rev field]
@@ -145,11 +141,11 @@ Definition call_builtin (name:list N) (ps:list value) : bres :=
     | [VStr [c]] => if (c <? 128)%N then BOk (VNum (of_int (Z.of_N c))) else BErr CustomError
     | [VStr _] => BErr CustomError | [_] => ty | _ => cnt 1%N end
   (* lowercase *) else if is [108;111;119;101;114;99;97;115;101] then
-    match ps with [VStr s] => if has_sigma s then BUnmodelled else BOk (VStr (lower_str s)) | [_] => ty | _ => cnt 1%N end
+    match ps with [VStr s] => BOk (VStr (lower_str s)) | [_] => ty | _ => cnt 1%N end
   (* uppercase *) else if is [117;112;112;101;114;99;97;115;101] then
     match ps with [VStr s] => BOk (VStr (upper_str s)) | [_] => ty | _ => cnt 1%N end
   (* same_text *) else if is [115;97;109;101;95;116;101;120;116] then
-    match ps with [VStr a; VStr b] => if has_sigma a || has_sigma b then BUnmodelled else BOk (VBool (leqb (lower_str a) (lower_str b))) | [_; _] => ty | _ => cnt 2%N end
+    match ps with [VStr a; VStr b] => BOk (VBool (leqb (lower_str a) (lower_str b))) | [_; _] => ty | _ => cnt 2%N end
   (* split *) else if is [115;112;108;105;116] then
     match ps with [VStr l; VStr sep] => BOk (vstrs (split_str l sep)) | [_; _] => ty | _ => cnt 1%N end
   (* split_csv *) else if is [115;112;108;105;116;95;99;115;118] then
